@@ -4,7 +4,8 @@ from .driver import Finding
 
 
 class H:
-    def __init__(self, name, target, cls, key=None, replay=None, twin=False, text=None):
+    def __init__(self, name, target, cls, key=None, replay=None, twin=False, text=None, replay_known=None):
+        self.replay_known = replay_known   # callable(known_findings entry) -> argv for a listed finding's recorded witness
         self.name = name          # module::harness
         self.target = target      # function(s) of /repo the harness drives
         self.cls = cls            # input class / bound description
@@ -47,7 +48,12 @@ def run_harnesses(ctx, crate, specs, jobs=8, harness_timeout=300, total_timeout=
         elif r.status == 'failed' and not r.unwind_failure:
             ctx.add_obligations(s.target, [{'name': s.name + ': ' + '; '.join(c for c, _ in r.failed_checks)[:200], 'status': 'violated', 'secs': r.time_s, 'kind': 'kani'}], cls=s.cls)
             cmd = None; vals = None
-            if s.replay is not None:
+            key = s.key(r.failed_checks) if callable(s.key) else s.key
+            known = getattr(ctx, 'known', {}).get(key)
+            if known is not None and known.get('replay') and s.replay_known is not None:
+                # a listed finding: confirm natively with its recorded witness instead of a fresh concrete playback
+                cmd = s.replay_known(known)
+            elif s.replay is not None:
                 src, log = kani.playback(crate, s.name)
                 vals = kani.concrete_values(src)
                 try:
@@ -55,7 +61,7 @@ def run_harnesses(ctx, crate, specs, jobs=8, harness_timeout=300, total_timeout=
                 except Exception as e:        # decoding problem: finding stays unreplayed -> inconclusive
                     cmd = None
                     ctx.notes.append('playback decode failed for %s: %s' % (s.name, e))
-            f = Finding(s.key, (s.text or '%s violated on class %s' % (s.target, s.cls)) + ': ' + '; '.join(c for c, _ in r.failed_checks)[:300], cmd,
+            f = Finding(s.key(r.failed_checks) if callable(s.key) else s.key, (s.text or '%s violated on class %s' % (s.target, s.cls)) + ': ' + '; '.join(c for c, _ in r.failed_checks)[:300], cmd,
                         {'harness': s.name, 'concrete_values': vals})
             if cmd is None:
                 f.replay_cmd = ['bash', '-c', 'echo "no native replay available for %s"; exit 3' % s.name]
